@@ -136,32 +136,44 @@ func (h *ConsistentHash) Remove(node any) {
 
 	for i := 0; i < h.replicas; i++ {
 		hash := h.hashFunc([]byte(nodeRepr + strconv.Itoa(i)))
-		index := sort.Search(len(h.keys), func(i int) bool {
-			return h.keys[i] >= hash
-		})
-		if index < len(h.keys) && h.keys[index] == hash {
-			h.keys = append(h.keys[:index], h.keys[index+1:]...)
+		// drop one key per virtual node actually taken out of the ring: the hash may
+		// belong to other nodes only (e.g. "1"+"10" == "11"+"0"), or to nobody if the
+		// node was added with fewer replicas than h.replicas.
+		for n := h.removeRingNode(hash, nodeRepr); n > 0; n-- {
+			index := sort.Search(len(h.keys), func(i int) bool {
+				return h.keys[i] >= hash
+			})
+			if index < len(h.keys) && h.keys[index] == hash {
+				h.keys = append(h.keys[:index], h.keys[index+1:]...)
+			}
 		}
-		h.removeRingNode(hash, nodeRepr)
 	}
 
 	h.removeNode(nodeRepr)
 }
 
-func (h *ConsistentHash) removeRingNode(hash uint64, nodeRepr string) {
-	if nodes, ok := h.ring[hash]; ok {
-		newNodes := nodes[:0]
-		for _, x := range nodes {
-			if repr(x) != nodeRepr {
-				newNodes = append(newNodes, x)
-			}
-		}
-		if len(newNodes) > 0 {
-			h.ring[hash] = newNodes
-		} else {
-			delete(h.ring, hash)
+// removeRingNode removes the virtual nodes of nodeRepr from the given hash slot,
+// and returns how many were removed.
+func (h *ConsistentHash) removeRingNode(hash uint64, nodeRepr string) int {
+	nodes, ok := h.ring[hash]
+	if !ok {
+		return 0
+	}
+
+	total := len(nodes)
+	newNodes := nodes[:0]
+	for _, x := range nodes {
+		if repr(x) != nodeRepr {
+			newNodes = append(newNodes, x)
 		}
 	}
+	if len(newNodes) > 0 {
+		h.ring[hash] = newNodes
+	} else {
+		delete(h.ring, hash)
+	}
+
+	return total - len(newNodes)
 }
 
 func (h *ConsistentHash) addNode(nodeRepr string) {
